@@ -269,37 +269,6 @@ func (t *T) norm(omitNil, omitEmpty bool) *T {
 	return t
 }
 
-// prettyNorm is what pretty.Writer drops (known finding C04-pretty-omit): empty arrays and maps also
-// under OmitNil alone, and maps all of whose members were dropped. The second result is the
-// "skip" mark of the node.
-func (t *T) prettyNorm(omitNil, omitEmpty bool) (*T, bool) {
-	switch t.K {
-	case 'n':
-		return t, omitNil
-	case 'S':
-		return t, omitEmpty && len(t.S) == 0
-	case '[':
-		n := &T{K: '['}
-		for _, e := range t.E {
-			x, _ := e.prettyNorm(omitNil, omitEmpty)
-			n.E = append(n.E, x)
-		}
-		return n, (omitNil || omitEmpty) && len(t.E) == 0
-	case '{':
-		n := &T{K: '{'}
-		for i, k := range t.Keys {
-			x, skip := t.Vals[i].prettyNorm(omitNil, omitEmpty)
-			if skip {
-				continue
-			}
-			n.Keys = append(n.Keys, k)
-			n.Vals = append(n.Vals, x)
-		}
-		return n, (omitNil || omitEmpty) && len(n.Keys) == 0
-	}
-	return t, false
-}
-
 func (t *T) equal(o *T) bool {
 	if t.K != o.K {
 		return false
@@ -446,125 +415,6 @@ func denotes(exp *T, spec *lib.Node) (bool, string) {
 		}
 	}
 	return true, ""
-}
-
-// ---- alignment tables (pretty, Align): which trees have a column that holds arrays in some rows and
-// maps in others (known finding C04-pretty-align-mixed) ----
-
-type alignCol struct {
-	hasArr, hasMap bool
-	byIdx          map[int]*alignCol
-	byKey          map[string]*alignCol
-}
-
-func (c *alignCol) sub(idx int, key string, isKey bool) *alignCol {
-	if isKey {
-		if c.byKey == nil {
-			c.byKey = map[string]*alignCol{}
-		}
-		if c.byKey[key] == nil {
-			c.byKey[key] = &alignCol{}
-		}
-		return c.byKey[key]
-	}
-	if c.byIdx == nil {
-		c.byIdx = map[int]*alignCol{}
-	}
-	if c.byIdx[idx] == nil {
-		c.byIdx[idx] = &alignCol{}
-	}
-	return c.byIdx[idx]
-}
-
-func (c *alignCol) addRow(row *T) {
-	switch row.K {
-	case '[':
-		for i, e := range row.E {
-			c.sub(i, "", false).addCell(e)
-		}
-	case '{':
-		for i, k := range row.Keys {
-			c.sub(0, sanitize(k), true).addCell(row.Vals[i])
-		}
-	}
-}
-
-func (c *alignCol) addCell(cell *T) {
-	switch cell.K {
-	case '[':
-		c.hasArr = true
-		c.addRow(cell)
-	case '{':
-		c.hasMap = true
-		c.addRow(cell)
-	}
-}
-
-func (c *alignCol) mixed() bool {
-	if c.hasArr && c.hasMap {
-		return true
-	}
-	for _, s := range c.byIdx {
-		if s.mixed() {
-			return true
-		}
-	}
-	for _, s := range c.byKey {
-		if s.mixed() {
-			return true
-		}
-	}
-	return false
-}
-
-// nodeDepth is pretty's node depth: 0 for a leaf and for an empty container.
-func (t *T) nodeDepth() int {
-	d := 0
-	for _, e := range t.E {
-		if x := e.nodeDepth() + 1; x > d {
-			d = x
-		}
-	}
-	for _, v := range t.Vals {
-		if x := v.nodeDepth() + 1; x > d {
-			d = x
-		}
-	}
-	return d
-}
-
-// hasMixedAlignTable reports whether pretty (Align on, given MaxDepth) builds, somewhere in the tree
-// (already reduced by prettyNorm), an alignment table with a column mixing arrays and maps.
-func (t *T) hasMixedAlignTable(maxDepth int) bool {
-	if t.K == '[' && len(t.E) >= 2 && t.nodeDepth() <= maxDepth {
-		kind := t.E[0].K
-		same := kind == '[' || kind == '{'
-		for _, e := range t.E {
-			if e.K != kind {
-				same = false
-			}
-		}
-		if same {
-			root := &alignCol{}
-			for _, e := range t.E {
-				root.addRow(e)
-			}
-			if root.mixed() {
-				return true
-			}
-		}
-	}
-	for _, e := range t.E {
-		if e.hasMixedAlignTable(maxDepth) {
-			return true
-		}
-	}
-	for _, v := range t.Vals {
-		if v.hasMixedAlignTable(maxDepth) {
-			return true
-		}
-	}
-	return false
 }
 
 func (t *T) hasContainer() bool { return t.K == '[' || t.K == '{' }
